@@ -14,7 +14,7 @@ use std::sync::mpsc;
 use std::time::{Duration, Instant};
 
 const HANG_LIMIT_S: u64 = 60;
-const HANG_RECHECK_S: u64 = 180;
+const HANG_RECHECK_S: u64 = 120;
 
 fn parse_tier(s: &str) -> Tier {
     match s {
@@ -28,7 +28,8 @@ fn parse_tier(s: &str) -> Tier {
 }
 
 fn flag(args: &[String], name: &str) -> Option<String> {
-    args.iter().position(|a| a == name).and_then(|i| args.get(i + 1).cloned())
+    // the last occurrence wins (the wrapper passes its defaults first)
+    args.iter().rposition(|a| a == name).and_then(|i| args.get(i + 1).cloned())
 }
 
 pub fn dispatch(args: &[String]) -> i32 {
@@ -357,7 +358,7 @@ pub fn run_batch(check: &str, tier: Tier, seed: u64, runs: u64, jobs: usize) -> 
     // re-check suspected hangs alone with a longer limit
     let mut hangs = Vec::new();
     suspects.sort();
-    for k in suspects.into_iter().take(2) {
+    for k in suspects.into_iter().take(1) {
         let exe = std::env::current_exe().unwrap();
         let mut child = Command::new(exe)
             .args(["worker", check, tier.name(), &seed.to_string(), &k.to_string(), "1", &(k + 1).to_string()])
